@@ -256,7 +256,7 @@ func genCase(r *rng.R, malformed bool) Input {
 				link = strings.TrimPrefix(chain[i+1].path, T+"/cwd/") // relative to the working directory
 			}
 		} else {
-			switch r.Intn(14) {
+			switch r.Intn(20) {
 			case 0, 1: // cycle
 				end = "cycle"
 				link = chain[r.Intn(n)].path
